@@ -10,7 +10,7 @@ let parse_event (s : string) : M.event =
   | ["S"; c] -> M.EStart (dec c, false)
   | ["T"; c] -> M.EStart (dec c, true)
   | ["U"; c] -> M.EStartUnread (dec c)
-  | ["X"; c] -> M.EExpire (dec c)
+  | ["X"; c] | ["XZ"; c] -> M.EExpire (dec c)
   | ["XA"; c] -> M.EExpireA (dec c)
   | ["XB"; c] -> M.EExpireB (dec c)
   | ["XC"; c] -> M.EExpireC (dec c)
